@@ -593,6 +593,9 @@ func (fc *FnCtx) evalCall(x *ECall, env *Env) Val {
 			ref, tn = v.C[0], typeName(derefType(v.T))
 		}
 		hn := "G." + tn + "." + lit.Val
+		if d, ok := fc.e.cs.GhostField[tn+"."+lit.Val]; ok {
+			hn = d
+		}
 		return intVal(fmt.Sprintf("(select %s %s)", fc.getHeapTerm(h, hn, arrOf(SInt)), ref))
 	case "box":
 		// box(x): x converted to an interface value (as passed to a parameter of interface type)
